@@ -1,6 +1,7 @@
 #!/bin/sh
 # tools/allseeds.sh : apply every seeded change in turn, run the property's quick check, record the outcome in seeded/<id>/meta.json
 cd /verif
+export VERIF_EVIDENCE_DIR=/verif/.scratch/evidence_seeded   # evidence/ is for runs on the unchanged tree
 for d in seeded/*/; do
   name=$(basename "$d"); prop=$(echo "$name" | cut -c1-3); [ -f "$d/check_with" ] && prop=$(cat "$d/check_with")
   [ -f "$d/patch.diff" ] || continue
